@@ -35,6 +35,20 @@
  *       handlers whose targets are not config objects (permission strings templates/query/Host, variables, types,
  *       status/query, console)
  *
+ *       Further verbs (round 3): c = PUT /v1/objects/hosts/<name> with attrs {check_command, vars from k=<mask>} (CreateObjectHandler,
+ *       permission objects/create/Host; observed: status, cr=<0|1> whether the object exists afterwards, nt=.<value of every user
+ *       entry's filter on the NEW object, '-' = entry without filter>; the object is deleted again), m now sends
+ *       attrs={notes: "vtouched"} and reports ch=<objects of the WHOLE inventory whose notes changed>; a:<action> accepts every
+ *       registered action with types (the registered callbacks are wrapped: the objects the handler invokes the action on are
+ *       recorded; only reschedule-check / remove-acknowledgement run the original callback and are read off the objects), ty=<the
+ *       action's registered types>.
+ *   G act:<shutdown-process|restart-process|generate-ticket>  | <http status> <results> inv=<0|1 the callback was invoked>
+ *   G cfgpackages | debug | cfgcreate                         | <http status> <results> [chg=<0|1 the package exists afterwards>]
+ *       GET /v1/config/packages (config/query), GET /v1/debug/malloc_info (debug), POST /v1/config/packages/vpkg (config/modify)
+ *   X <Type> <name>                                          | ok <T/name> | none
+ *       ApiActions::GetSingleObjectByNameUsingPermissions(Type, name, user): the by-name lookup execute-command uses for the
+ *       endpoint, command, user and notification it is told to use (permission objects/query/<Type> and its filter)
+ *
  *   K <users>                                               users = name:<password hex|->:<client_cn hex|->,... or -
  *       registers exactly these ApiUser objects (authentication inventory; names are unique, passwords and CNs need not be)
  *   B <Authorization header, hex|->                        | <user name|none|throw> dec=<hex|throw|->
@@ -66,6 +80,15 @@
 #include "base/tlsstream.hpp"
 #include "remote/httphandler.hpp"
 #include "remote/httpserverconnection.hpp"
+#include "remote/apiaction.hpp"
+#include "remote/configobjectutility.hpp"
+#include "remote/configpackageutility.hpp"
+#include "icinga/apiactions.hpp"
+#include "icinga/checkcommand.hpp"
+#include "config/configitem.hpp"
+#include "config/activationcontext.hpp"
+#include "base/workqueue.hpp"
+#include "base/configuration.hpp"
 #include <boost/asio/spawn.hpp>
 #include <boost/beast/http.hpp>
 #include <algorithm>
@@ -75,6 +98,11 @@
 
 using namespace icinga;
 using namespace vh;
+
+typedef Value (*LookupFn)(const String&, const String&, const ApiUser::Ptr&);
+namespace vh {
+VH_ROB_STATIC(LookupTag, LookupFn type, ApiActions, GetSingleObjectByNameUsingPermissions)
+}
 
 
 /* ------------------------------------------------------------------------------------------ strings */
@@ -429,9 +457,11 @@ static std::string PermTruth(const F& f)
 
 static Array::Ptr l_Perms;
 static ApiUser::Ptr l_User;
+static std::vector<std::shared_ptr<F>> l_PermF;   /* per entry: its filter (null = none) */
 
 static void ResetUser()
 {
+	l_PermF.clear();
 	l_Perms = new Array();
 	l_User = new ApiUser();
 	l_User->SetName("u");
@@ -515,6 +545,7 @@ static bool DoP(const std::vector<std::string>& w)
 	bool dict = w[3] == "d" || f;
 	l_Perms->Add(MakeEntry(pat, f.get(), dict));
 	printf("P %s %s %s | %s\n", w[1].c_str(), w[2].c_str(), dict ? "d" : "s", f ? PermTruth(*f).c_str() : "-");
+	l_PermF.push_back(std::shared_ptr<F>(f.release()));
 	return true;
 }
 
@@ -720,6 +751,95 @@ static bool Dispatch(boost::beast::http::request<boost::beast::http::string_body
 	return !crashed;
 }
 
+
+/* ------------------------------------------------------------------------------------------ actions, API storage */
+
+/* Every registered action is replaced by a wrapper that records the object the handler invokes it on. Only the two actions
+ * whose effect the harness reads off the objects run the original callback; shutdown-process / restart-process and the rest
+ * are never executed. */
+static const char *kTypedActions[] = { "process-check-result", "reschedule-check", "send-custom-notification", "delay-notification",
+	"acknowledge-problem", "remove-acknowledgement", "add-comment", "remove-comment", "schedule-downtime", "remove-downtime",
+	"execute-command" };
+static const char *kTypelessActions[] = { "shutdown-process", "restart-process", "generate-ticket" };
+static std::vector<ConfigObject::Ptr> l_Invoked;
+static int l_InvokedNull = 0;
+static std::map<std::string, std::string> l_ActionTypes;
+
+static bool IsTypedAction(const std::string& n) { for (auto a : kTypedActions) if (n == a) return true; return false; }
+static bool IsTypelessAction(const std::string& n) { for (auto a : kTypelessActions) if (n == a) return true; return false; }
+
+static void InitActions()
+{
+	auto wrap = [](const std::string& name) {
+		ApiAction::Ptr orig = ApiAction::GetByName(name);
+		if (!orig) { fprintf(stderr, "action %s is not registered\n", name.c_str()); _exit(4); }
+		std::set<String> ts(orig->GetTypes().begin(), orig->GetTypes().end());
+		std::string tl;
+		for (auto& t : ts) tl += (tl.empty() ? "" : ",") + std::string(t.GetData());
+		l_ActionTypes[name] = tl.empty() ? "-" : tl;
+		bool run = name == "reschedule-check" || name == "remove-acknowledgement";
+		ApiAction::Ptr w = new ApiAction(orig->GetTypes(), [orig, run](const ConfigObject::Ptr& target, const Dictionary::Ptr& params) -> Value {
+			if (target) l_Invoked.push_back(target); else l_InvokedNull++;
+			if (run) return orig->Invoke(target, params);
+			return new Dictionary({ { "code", 200 }, { "status", "verif" } });
+		});
+		ApiAction::Register(name, w);
+	};
+	for (auto a : kTypedActions) wrap(a);
+	for (auto a : kTypelessActions) wrap(a);
+}
+
+static std::string l_ApiTmpDir;
+static bool l_ApiOk = false;
+
+static void RemoveApiStorage()
+{
+	if (l_ApiTmpDir.empty()) return;
+	try { Utility::RemoveDirRecursive(l_ApiTmpDir); } catch (const std::exception&) { }
+	l_ApiTmpDir.clear();
+}
+
+static void Finish(int rc)
+{
+	fflush(stdout);
+	RemoveApiStorage();
+	_exit(rc);
+}
+
+/* a scratch data directory for the "_api" package (CreateObjectHandler, ConfigPackagesHandler) and the check command the
+ * created hosts refer to (a config item: attribute validation looks names up among the items) */
+static bool EnsureApiStorage()
+{
+	if (!l_ApiTmpDir.empty()) return l_ApiOk;
+	std::string base = "/tmp";
+	const char *env = getenv("TMPDIR");
+	if (env && *env) base = env;
+	std::string tmpl = base + "/c18api.XXXXXX";
+	std::vector<char> b(tmpl.begin(), tmpl.end());
+	b.push_back(0);
+	if (!mkdtemp(b.data())) { fprintf(stderr, "mkdtemp failed\n"); return false; }
+	l_ApiTmpDir = b.data();
+	Configuration::DataDir = l_ApiTmpDir;
+	try {
+		Utility::MkDirP(ConfigPackageUtility::GetPackageDir(), 0700);
+		std::unique_ptr<Expression> expr = ConfigCompiler::CompileText("<c18>",
+			"object CheckCommand \"dummy\" { execute = function(checkable, cr, resolvedMacros, useResolvedMacros) { } }\n");
+		ActivationScope ascope;
+		ScriptFrame frame(true);
+		expr->Evaluate(frame);
+		expr.reset();
+		WorkQueue upq;
+		upq.SetName("c18");
+		std::vector<ConfigItem::Ptr> newItems;
+		if (!ConfigItem::CommitItems(ascope.GetContext(), upq, newItems, true)) { fprintf(stderr, "commit of the check command failed\n"); return false; }
+		if (!ConfigItem::ActivateItems(newItems, false, false, false)) { fprintf(stderr, "activation of the check command failed\n"); return false; }
+		l_ApiOk = true;
+	} catch (const std::exception& ex) {
+		fprintf(stderr, "API storage unavailable: %s\n", DiagnosticInformation(ex, false).CStr());
+	}
+	return l_ApiOk;
+}
+
 /* verbs: q = GET /v1/objects, m = POST /v1/objects (attrs={}), d = DELETE /v1/objects (the objects were not created through
  * the API, so every deletion is refused with code 500 and nothing changes), a:<action> = POST /v1/actions/<action>
  * (type and name travel as URL parameters; the objects acted on are read off the objects: next_check moved / acknowledgement
@@ -730,10 +850,15 @@ static bool DoH(const std::vector<std::string>& w)
 	if (w.size() < 3 || !l_HttpOk) return false;
 	std::string verb = w[1];
 	bool action = verb.compare(0, 2, "a:") == 0;
-	if (!action && verb != "q" && verb != "m" && verb != "d") return false;
-	if (action && verb != "a:reschedule-check" && verb != "a:remove-acknowledgement") return false;
+	bool create = verb == "c";
+	if (!action && verb != "q" && verb != "m" && verb != "d" && !create) return false;
+	if (action && !IsTypedAction(verb.substr(2))) return false;
+	bool stateObserved = verb == "a:reschedule-check" || verb == "a:remove-acknowledgement";
 	bool svc = w[2] == "Service";
 	if (!svc && w[2] != "Host") return false;
+	if (create && (svc || !EnsureApiStorage())) return false;
+	std::string createName;
+	int createMask = 0;
 	std::string target = action ? "/v1/actions/" + verb.substr(2) : std::string("/v1/objects/") + (svc ? "services" : "hosts");
 	std::string qs;
 	auto addQ = [&](const std::string& k, const std::string& v) { qs += (qs.empty() ? "?" : "&") + k + "=" + UrlEnc(v); };
@@ -746,6 +871,9 @@ static bool DoH(const std::vector<std::string>& w)
 		if (tok.compare(0, 2, "n=") == 0) {
 			if (action) addQ(svc ? "service" : "host", Dec(tok.substr(2)));
 			else target += "/" + UrlEnc(Dec(tok.substr(2)));
+			createName = Dec(tok.substr(2));
+		} else if (tok.compare(0, 2, "k=") == 0 && create) {
+			createMask = atoi(tok.substr(2).c_str()) & 15;
 		} else if (tok.compare(0, 3, "sn=") == 0 && action) {
 			addQ("service", Dec(tok.substr(3)));   /* a service named in a request whose `type` is Host */
 		} else if (tok.compare(0, 2, "p=") == 0) {
@@ -764,8 +892,21 @@ static bool DoH(const std::vector<std::string>& w)
 		} else if (tok == "j") joins = true;
 		else return false;
 	}
-	if (verb == "m") body->Set("attrs", new Dictionary());
-	else if (verb == "q") {
+	const char *kTouched = "vtouched";
+	bool existedBefore = false;
+	if (create) {
+		if (createName.empty() || createName.find('!') != std::string::npos) return false;
+		existedBefore = ConfigObject::GetObject("Host", createName) != nullptr;
+		Dictionary::Ptr vars = new Dictionary();
+		for (int k = 0; k < 4; k++) vars->Set("b" + Convert::ToString(k), (createMask >> k & 1) != 0);
+		vars->Set("n", createMask);
+		body->Set("attrs", new Dictionary({ { "check_command", "dummy" }, { "vars", vars } }));
+	}
+	if (verb == "m") {
+		/* a real change, so that "which objects were changed" can be read off the WHOLE inventory */
+		body->Set("attrs", new Dictionary({ { "notes", kTouched } }));
+		for (auto& it : l_Inv) if (it.checkable) static_pointer_cast<Checkable>(it.obj)->SetNotes("");
+	} else if (verb == "q") {
 		body->Set("attrs", new Array({ String("name") }));
 		if (joins) {
 			/* joined objects are an access path of their own: each is subject to objects/query/<its type> */
@@ -774,8 +915,10 @@ static bool DoH(const std::vector<std::string>& w)
 			body->Set("joins", new Array(std::move(ja)));
 		}
 	}
-	http::verb hv = verb == "q" ? http::verb::get : verb == "d" ? http::verb::delete_ : http::verb::post;
+	http::verb hv = verb == "q" ? http::verb::get : verb == "d" ? http::verb::delete_ : create ? http::verb::put : http::verb::post;
 	http::request<http::string_body> req{hv, target + qs, 11};
+	l_Invoked.clear();
+	l_InvokedNull = 0;
 	req.body() = JsonEncode(body).GetData();
 	const double kSentinel = 1000.0;
 	if (action)
@@ -790,6 +933,31 @@ static bool DoH(const std::vector<std::string>& w)
 	std::vector<std::string> names, joined;
 	long count = 0;
 	int status = !ok ? 599 : (int)resp.result_int();
+	if (create) {
+		/* observed: does the object exist now? and what do the user's filters say about the NEW object? */
+		std::string pre;
+		for (size_t i = 0; i < w.size(); i++) pre += (i ? " " : "") + w[i];
+		ConfigObject::Ptr obj = ConfigObject::GetObject("Host", createName);
+		bool created = obj && !existedBefore;
+		std::string nt;
+		if (created) {
+			Item it;
+			it.type = "Host"; it.host = true; it.checkable = true; it.name = createName; it.mask = createMask; it.obj = obj;
+			l_Mask[obj.get()] = createMask;
+			for (auto& f : l_PermF) {
+				if (!f) { nt += '-'; continue; }
+				int r = Eval(*f, it);
+				nt += r < 0 ? 'e' : r > 0 ? '1' : '0';
+			}
+			l_Mask.erase(obj.get());
+			Array::Ptr errors = new Array();
+			bool gone = false;
+			try { gone = ConfigObjectUtility::DeleteObject(obj, false, errors, nullptr); } catch (const std::exception&) { }
+			if (!gone || ConfigObject::GetObject("Host", createName)) { fprintf(stderr, "cannot remove created host %s\n", createName.c_str()); Finish(4); }
+		}
+		printf("%s | %d - cr=%d nt=.%s ex=%d\n", pre.c_str(), status, created ? 1 : 0, nt.c_str(), existedBefore ? 1 : 0);
+		return true;
+	}
 	if (status == 200 || status == 500) {
 		try {
 			Dictionary::Ptr r = JsonDecode(resp.body());
@@ -831,15 +999,34 @@ static bool DoH(const std::vector<std::string>& w)
 			/* which objects did the action act on? reschedule-check moves next_check, remove-acknowledgement clears the mark */
 			if (!it.checkable) continue;
 			Checkable::Ptr c = static_pointer_cast<Checkable>(it.obj);
+			if (!stateObserved) continue;
 			bool acted = verb == "a:reschedule-check" ? c->GetNextCheck() != kSentinel : c->GetAcknowledgementRaw() == AcknowledgementNone;
 			if (acted) names.push_back(it.type + "/" + it.name);
 		}
+	if (action && !stateObserved) {
+		/* the objects the handler invoked the (wrapped) action on */
+		std::set<std::string> acted;
+		for (auto& o : l_Invoked) acted.insert(std::string(o->GetReflectionType()->GetName().GetData()) + "/" + o->GetName().GetData());
+		for (auto& n : acted) names.push_back(n);
+	}
+	std::string changed;
+	if (verb == "m") {
+		std::vector<std::string> ch;
+		for (auto& it : l_Inv)
+			if (it.checkable && static_pointer_cast<Checkable>(it.obj)->GetNotes() == kTouched) ch.push_back(it.type + "/" + it.name);
+		std::sort(ch.begin(), ch.end());
+		for (size_t i = 0; i < ch.size(); i++) changed += (i ? "," : "") + ch[i];
+		if (changed.empty()) changed = "-";
+	}
 	std::sort(names.begin(), names.end());
 	std::sort(joined.begin(), joined.end());
 	auto join = [](const std::vector<std::string>& v) { std::string o; for (size_t i = 0; i < v.size(); i++) o += (i ? "," : "") + v[i]; return o.empty() ? std::string("-") : o; };
 	std::string pre;
 	for (size_t i = 0; i < w.size(); i++) pre += (i ? " " : "") + w[i];
-	printf("%s | %d %s cnt=%ld jn=%s ft=%s fast=%s\n", pre.c_str(), status, join(names).c_str(), count, join(joined).c_str(), ft.c_str(), fast.c_str());
+	printf("%s | %d %s cnt=%ld jn=%s ft=%s fast=%s", pre.c_str(), status, join(names).c_str(), count, join(joined).c_str(), ft.c_str(), fast.c_str());
+	if (verb == "m") printf(" ch=%s", changed.c_str());
+	if (action) printf(" ty=%s", l_ActionTypes[verb.substr(2)].c_str());
+	printf("\n");
 	return true;
 }
 
@@ -858,20 +1045,58 @@ static bool DoG(const std::vector<std::string>& w)
 	else if (k == "types") target = "/v1/types";
 	else if (k == "status") target = "/v1/status/IcingaApplication";
 	else if (k == "console") { target = "/v1/console/execute-script?command=1&session=verif"; hv = http::verb::post; }
+	else if (k.compare(0, 4, "act:") == 0 && IsTypelessAction(k.substr(4))) { target = "/v1/actions/" + k.substr(4); hv = http::verb::post; }
+	else if (k == "debug") target = "/v1/debug/malloc_info";
+	else if (k == "cfgpackages" || k == "cfgcreate") {
+		if (!EnsureApiStorage()) return false;
+		target = k == "cfgpackages" ? "/v1/config/packages" : "/v1/config/packages/vpkg";
+		if (k == "cfgcreate") hv = http::verb::post;
+	}
 	else return false;
 	http::request<http::string_body> req{hv, target, 11};
 	http::response<http::string_body> resp;
+	l_Invoked.clear();
+	l_InvokedNull = 0;
 	bool ok = Dispatch(req, resp);
 	int status = !ok ? 599 : (int)resp.result_int();
 	long count = -1;
-	if (status == 200) {
+	if (status == 200 && k != "debug") {   /* malloc_info answers with XML */
 		try {
 			Dictionary::Ptr r = JsonDecode(resp.body());
 			Array::Ptr results = r->Get("results");
 			count = results ? (long)results->GetLength() : -1;
 		} catch (const std::exception&) { status = 598; }
 	}
-	printf("G %s | %d %ld\n", k.c_str(), status, count);
+	printf("G %s | %d %ld", k.c_str(), status, count);
+	if (k.compare(0, 4, "act:") == 0) printf(" inv=%d", l_InvokedNull > 0 || !l_Invoked.empty() ? 1 : 0);
+	if (k == "cfgcreate") {
+		bool exists = false;
+		try { exists = ConfigPackageUtility::PackageExists("vpkg"); } catch (const std::exception&) { }
+		printf(" chg=%d", exists ? 1 : 0);
+		if (exists) { try { Utility::RemoveDirRecursive(ConfigPackageUtility::GetPackageDir() + "/vpkg"); } catch (const std::exception&) { fprintf(stderr, "cannot remove package\n"); Finish(4); } }
+	}
+	printf("\n");
+	return true;
+}
+
+
+/* X <Type> <name>: the by-name lookup of execute-command */
+static bool DoX(const std::vector<std::string>& w)
+{
+	if (w.size() < 3) return false;
+	const std::string& t = w[1];
+	if (t != "Host" && t != "Service" && t != "Endpoint" && t != "TimePeriod") return false;
+	if (w[2] == "e1" || w[2] == "e2" || w[2] == "tp1" || w[2] == "tp2") return false;   /* registered, but never inventory objects */
+	LookupFn lookup = get(LookupTag());
+	std::string res = "none";
+	try {
+		Value v = lookup(String(t), String(Dec(w[2])), l_User);
+		if (!v.IsEmpty()) {
+			ConfigObject::Ptr o = v;
+			res = "ok " + std::string(o->GetReflectionType()->GetName().GetData()) + "/" + Enc(o->GetName().GetData());
+		}
+	} catch (const std::exception&) { res = "throw"; }
+	printf("X %s %s | %s\n", w[1].c_str(), w[2].c_str(), res.c_str());
 	return true;
 }
 
@@ -971,6 +1196,7 @@ static bool DoLine(const std::string& line)
 	if (w[0] == "A") return DoA(w);
 	if (w[0] == "H") return DoH(w);
 	if (w[0] == "G") return DoG(w);
+	if (w[0] == "X") return DoX(w);
 	if (w[0] == "K") return DoK(w);
 	if (w[0] == "B") return DoB(w);
 	if (w[0] == "N") return DoN(w);
@@ -982,8 +1208,7 @@ static void Run(const std::string& line)
 {
 	if (!DoLine(line)) {
 		fprintf(stderr, "bad line: %s\n", line.c_str());
-		fflush(stdout);
-		_exit(3);
+		Finish(3);
 	}
 }
 
@@ -996,6 +1221,15 @@ static const char *kRequired[] = {
 	"variables", "types", "templates/query/Host"
 };
 static const int kRequiredN = sizeof(kRequired) / sizeof(*kRequired);
+/* round 3: the entry points that were never dispatched */
+static const char *kRequired2[] = {
+	"objects/create/Host", "objects/create/Host", "actions/add-comment", "actions/schedule-downtime", "actions/execute-command",
+	"actions/remove-comment", "actions/remove-downtime", "actions/process-check-result", "actions/send-custom-notification",
+	"actions/delay-notification", "actions/acknowledge-problem", "actions/shutdown-process", "actions/restart-process",
+	"actions/generate-ticket", "config/query", "config/modify", "debug", "objects/modify/Host", "objects/modify/Service",
+	"objects/query/Host", "objects/query/Service"
+};
+static const int kRequired2N = sizeof(kRequired2) / sizeof(*kRequired2);
 
 static std::string FlipCase(Rng& r, std::string s)
 {
@@ -1118,7 +1352,9 @@ static void GenCase(Rng& r)
 	Run("C " + inv);
 
 	std::string req = kRequired[r.below(r.below(4) == 0 ? kRequiredN : 9)];
+	if (r.below(4) == 0) req = kRequired2[r.below(kRequired2N)];
 	bool actions = req.compare(0, 8, "actions/") == 0;
+	bool typedAction = actions && IsTypedAction(req.substr(8));
 	bool svcPerm = req.size() > 7 && req.substr(req.size() - 7) == "Service";
 
 	int np = (int)r.below(5);
@@ -1201,7 +1437,7 @@ static void GenCase(Rng& r)
 			std::string one = svcs[r.below(svcs.size())];
 			Run("Q " + Enc(req) + " Host,Service c n:Service=" + one + " t=Host f=" + f);
 			Run("Q " + Enc(req) + " Host,Service l n:Service=" + one + " t=Host f=" + f);
-			if (l_HttpOk && (req == "actions/reschedule-check" || req == "actions/remove-acknowledgement"))
+			if (l_HttpOk && typedAction)
 				Run("H a:" + req.substr(8) + " Host sn=" + one + " f=" + f);
 			if (svcs.size() >= 2) {
 				std::sort(svcs.begin(), svcs.end());
@@ -1232,9 +1468,9 @@ static void GenCase(Rng& r)
 			for (size_t i = 0; i < have.size(); i++) names += (i ? "," : "") + have[i];
 			Run("Q " + Enc(req) + " " + types + " c p:" + T + "=" + names + tail);
 			Run("Q " + Enc(req) + " " + types + " l p:" + T + "=" + names + tail);
-			if (l_HttpOk && req.compare(0, 8, "objects/") == 0)
+			if (l_HttpOk && req.compare(0, 8, "objects/") == 0 && req[8] != 'c')
 				Run(std::string("H ") + req[8] + " " + T + " p=" + names);
-			else if (l_HttpOk && (req == "actions/reschedule-check" || req == "actions/remove-acknowledgement"))
+			else if (l_HttpOk && typedAction)
 				Run("H a:" + req.substr(8) + " " + T + " p=" + names);
 		} while (std::next_permutation(have.begin(), have.end()));
 	}
@@ -1245,11 +1481,18 @@ static void GenCase(Rng& r)
 			bool svc = r.coin();
 			std::string verb = r.below(3) == 0 ? "m" : "q";
 			if (r.below(8) == 0) verb = "d";
-			if (r.below(8) == 0) verb = r.coin() ? "a:reschedule-check" : "a:remove-acknowledgement";
+			if (r.below(8) == 0) verb = std::string("a:") + kTypedActions[r.below(sizeof(kTypedActions) / sizeof(*kTypedActions))];
 			if (r.below(4) != 0) {
 				/* mostly the request the case's user was built for */
 				if (req.compare(0, 8, "objects/") == 0) { svc = svcPerm; verb = std::string(1, req[8]); }
-				else if (req == "actions/reschedule-check" || req == "actions/remove-acknowledgement") verb = "a:" + req.substr(8);
+				else if (typedAction) verb = "a:" + req.substr(8);
+			}
+			if (verb == "c" || r.below(40) == 0) {
+				/* PUT /v1/objects/hosts/<name>: mostly a fresh name, sometimes one that is taken */
+				static const char *fresh[] = { "new0", "new1", "web2", "h9" };
+				std::string nm = r.below(6) == 0 ? kHostNames[r.below(4)] : fresh[r.below(4)];
+				Run("H c Host n=" + nm + " k=" + std::to_string(r.below(16)));
+				continue;
 			}
 			std::string h = "H " + verb + (svc ? " Service" : " Host");
 			uint64_t k = r.below(8);
@@ -1261,10 +1504,20 @@ static void GenCase(Rng& r)
 			Run(h);
 		}
 		/* handlers whose targets are not config objects: is their permission string enforced? */
-		static const char *kinds[] = { "templates", "variables", "types", "status", "console" };
-		static const char *kindPerm[] = { "templates/query/Host", "variables", "types", "status/query", "console" };
-		for (int i = 0; i < 5; i++)
-			if (req == kindPerm[i] || r.below(10) == 0) Run(std::string("G ") + kinds[i]);
+		static const char *kinds[] = { "templates", "variables", "types", "status", "console", "cfgpackages", "cfgcreate", "debug",
+			"act:shutdown-process", "act:restart-process", "act:generate-ticket" };
+		static const char *kindPerm[] = { "templates/query/Host", "variables", "types", "status/query", "console", "config/query",
+			"config/modify", "debug", "actions/shutdown-process", "actions/restart-process", "actions/generate-ticket" };
+		for (int i = 0; i < 11; i++)
+			if (req == kindPerm[i] || r.below(i < 5 ? 10 : 30) == 0) Run(std::string("G ") + kinds[i]);
+	}
+	/* the by-name lookup of execute-command, for the types of the inventory */
+	if (req.compare(0, 14, "objects/query/") == 0 || req == "actions/execute-command" || r.below(10) == 0) {
+		int nx = 1 + (int)r.below(3);
+		for (int i = 0; i < nx; i++) {
+			bool host = svcPerm ? r.below(4) == 0 : r.below(4) != 0;
+			Run(std::string("X ") + (host ? "Host " : "Service ") + PickName(r, host));
+		}
 	}
 	Run("A " + Enc(req) + " Host,Service");
 	if (r.coin()) Run("A " + Enc(FlipCase(r, kRequired[r.below(kRequiredN)])) + " Host,Service");
@@ -1320,6 +1573,16 @@ static void GenJoinCase(Rng& r)
 		}
 	}
 	for (auto p : perms) Run(std::string("A ") + p + " Host,Service,Endpoint,TimePeriod");
+	/* execute-command's lookup: endpoints (and the other kinds) by name, objects of different types sharing names */
+	{
+		int nx = 2 + (int)r.below(4);
+		for (int i = 0; i < nx; i++) {
+			static const char *ts[] = { "Endpoint", "Endpoint", "TimePeriod", "Host", "Service" };
+			std::string t = ts[r.below(5)];
+			std::string nm = t == "Service" ? PickName(r, false) : r.below(8) == 0 ? std::string("nope") : std::string(names[r.below(3)]);
+			Run("X " + t + " " + nm);
+		}
+	}
 }
 
 /* ApiUser::GetByAuthHeader / GetByClientCN over generated user inventories and headers */
@@ -1414,6 +1677,7 @@ int main(int argc, char **argv)
 	InitJoinTargets();
 	ResetUser();
 	InitHttp();
+	InitActions();
 
 	std::string mode = argv[1];
 	if (mode == "gen") {
@@ -1439,6 +1703,6 @@ int main(int argc, char **argv)
 		fclose(f);
 	} else
 		return 2;
-	fflush(stdout);
-	_exit(0);
+	Finish(0);
+	return 0;
 }
